@@ -18,7 +18,7 @@ from __future__ import annotations
 import ast
 
 from ..lincomb import LinComb
-from ..matalg import Alg, MatEval, Val
+from ..matalg import Alg, MatEval, NeedSplit, Val
 from ..model import Program, call_name, is_self_attr, norm
 from ..poly import Rat, sign_atom
 from ..report import AnalysisError
@@ -353,7 +353,18 @@ def _returns(ev: MatEval, f, env):
         return orig_ev(fn, e, en)
 
     ev.ev = ev_with_scalar
-    return ev.returns(f, env)
+    try:
+        return ev.returns(f, env)
+    except NeedSplit as ns:
+        # a run-time flag the algebra cannot see: the obligations must hold for both of its values
+        out = []
+        base = dict(ev.assume)
+        for val in (True, False):
+            ev.assume = {**base, ns.key: val}
+            for asm, v in ev.returns(f, env):
+                out.append(({**asm, ns.key: val}, v))
+        ev.assume = base
+        return out
 
 
 def _cmp(r, alg, got, want, f, cname, what, label):
